@@ -2,6 +2,7 @@ package main
 
 import (
 	"fmt"
+	"path"
 	"go/token"
 	"go/types"
 	"os"
@@ -272,6 +273,18 @@ func (p *Program) ifaceContract(t types.Type, method string) *FuncContract {
 		if fc, ok := p.Contracts.Funcs[n.Obj().Pkg().Path()+"::"+n.Obj().Name()+"."+method]; ok {
 			return fc
 		}
+		// written from another package as pkgname.Iface.Method
+		short := n.Obj().Pkg().Name() + "." + n.Obj().Name() + "." + method
+		var keys []string
+		for k, fc := range p.Contracts.Funcs {
+			if fc.Functype && fc.Name == short {
+				keys = append(keys, k)
+			}
+		}
+		sort.Strings(keys)
+		if len(keys) > 0 {
+			return p.Contracts.Funcs[keys[0]]
+		}
 	}
 	return nil
 }
@@ -319,4 +332,53 @@ func (p *Program) findFunc(fc *FuncContract) *ssa.Function {
 		return fn
 	}
 	return nil
+}
+
+// expandSweeps turns `sweep` directives into (empty, safety-only) contracts for every function of
+// the package whose package-relative name matches the pattern and which has no contract of its own.
+func (p *Program) expandSweeps() {
+	cs := p.Contracts
+	for _, sw := range cs.Sweeps {
+		sp := p.Pkgs[sw.PkgPath]
+		if sp == nil {
+			continue
+		}
+		var names []string
+		for fn := range ssautil.AllFunctions(p.Prog) {
+			if fn.Origin() != nil || len(fn.Blocks) == 0 {
+				continue
+			}
+			pkgPath, rel, _ := funcKeyNames(fn)
+			if pkgPath != sw.PkgPath {
+				continue
+			}
+			if ok, _ := path.Match(sw.Glob, rel); !ok {
+				continue
+			}
+			skip := false
+			for _, e := range sw.Except {
+				if ok, _ := path.Match(e, rel); ok || e == rel {
+					skip = true
+				}
+			}
+			if skip {
+				continue
+			}
+			names = append(names, rel)
+		}
+		sort.Strings(names)
+		for _, rel := range names {
+			key := sw.PkgPath + "::" + rel
+			if fc, ok := cs.Funcs[key]; ok {
+				for _, pr := range sw.Props {
+					if !hasProp(fc.Props, pr) {
+						fc.Props = append(fc.Props, pr)
+					}
+				}
+				continue
+			}
+			cs.Funcs[key] = &FuncContract{Name: rel, PkgPath: sw.PkgPath, Props: append([]string{}, sw.Props...), IntMode: sw.IntMode,
+				LoopInv: map[int][]Clause{}, LoopDec: map[int]*Clause{}, LoopMod: map[int][]*SX{}, File: sw.File, Line: sw.Line, Swept: true, Requires: sw.Requires}
+		}
+	}
 }
